@@ -18,13 +18,13 @@ Definition std_host (hres : nat -> list Z) (h : nat) (args : list Z) : hostres Z
 Definition hres_of (l : list (list Z)) (h : nat) : list Z := nth h l [].
 
 (* observation of one call as the harness reports it *)
-Inductive obs := ORes (vs : list Z) | OTrap (k : Z).
+Inductive obs := ORes (vs : list Z) | OTrap (k : Z) | OAny. (* OAny: values or an exit (call on a module closed by an earlier exit) *)
 (* trap classes: 1 unreachable, 2 integer division, 3 out of bounds, 4 indirect call, 5 exhaustion,
    6 host panic, 7 exit, 0 other *)
 Definition trap_code (t : trapk) : Z :=
   match t with
   | TUnreachable => 1 | TDiv => 2 | TOob => 3 | TIndirect => 4 | TExhaust => 5
-  | THostPanic _ => 6 | TExit _ => 7 | TStuck => 99
+  | THostPanic _ => 6 | TExit c => 7 + 100 * c | TStuck => 99
   end.
 
 Fixpoint zlist_eqb (a b : list Z) : bool :=
@@ -38,6 +38,8 @@ Definition obs_match (r : result Spec) (o : obs) : bool :=
   match r, o with
   | RVals vs, ORes ws => zlist_eqb vs ws
   | RTrap t, OTrap k => trap_code t =? k
+  | RVals _, OAny => true
+  | RTrap (TExit _), OAny => true
   | _, _ => false
   end.
 
@@ -143,4 +145,36 @@ Fixpoint lmismatches (i : Z) (cs : list lcase) : list (Z * Z) :=
   | [] => []
   | c :: r => let d := check_lcase c in
               if d =? -1 then lmismatches (i + 1) r else (i, d) :: lmismatches (i + 1) r
+  end.
+
+(* ---- failure cases (C06): host functions that panic (h = 10), exit (h = 11) or re-enter the guest (h = 12) ---- *)
+Definition fail_host (hres : nat -> list Z) (reent : nat) (h : nat) (args : list Z) : hostres Z :=
+  match h with
+  | 10%nat => if (hd 0 args) mod 2 =? 0 then HPanic (hd 0 args) else HRet []
+  | 11%nat => if (hd 0 args) mod 4 =? 0 then HExit (hd 0 args) else HRet []
+  | 12%nat => HReenter reent args
+  | _ => std_host hres h args
+  end.
+
+Record fcase := { f_case : dcase; f_reent : nat }.
+
+Definition check_fcase (fc : fcase) : Z :=
+  let c := f_case fc in
+  let '(s, rs) := run_calls Spec (fail_host (hres_of (d_hres c)) (f_reent fc)) (fun _ => false) MAXDEPTH FUEL (d_store c) (d_calls c) in
+  if has_fuel_out rs then -3 else
+  let d := first_obs_diff 0 rs (d_obs c) in
+  if negb (d =? -1) then d else
+  if negb (hlog_eqb (host_events (s_log s)) (d_hlog c)) then 1000 else
+  if negb (zlist_eqb (s_globals s) (d_globals c)) then 1001 else
+  match s_mems s with
+  | m :: _ => if negb (mem_agree (mdata m) (d_mem c)) then 1002
+              else if negb (mlen m / 65536 =? d_pages c) then 1003 else -1
+  | [] => -1
+  end.
+
+Fixpoint fmismatches (i : Z) (cs : list fcase) : list (Z * Z) :=
+  match cs with
+  | [] => []
+  | c :: r => let d := check_fcase c in
+              if d =? -1 then fmismatches (i + 1) r else (i, d) :: fmismatches (i + 1) r
   end.
